@@ -87,6 +87,10 @@ func fromExpr(n *hook.Node) (*peg.Expr, error) {
 	case "throw":
 		return peg.Throw(string(n.V)), nil
 	case "label":
+		if n.Name == nil {
+			// unnamed labeled expression (scope wrapper made by the optimizer)
+			return ks[0], nil
+		}
 		return &peg.Expr{K: peg.KLabel, Name: string(n.Name.V), Kids: ks}, nil
 	case "and", "not", "opt", "star", "plus":
 		return &peg.Expr{K: unary[n.K], Kids: ks}, nil
